@@ -1896,13 +1896,18 @@ where
                 state.remove_remote_if_idle(remote_id);
             }
             WriteTaskEvent::Timeout => {
-                info!(
-                    "No events sent within {:?}, voting to stop.",
-                    runtime_config.inactive_timeout
-                );
-                if !state.has_remotes() {
-                    info!("Stopping after timeout with no remotes.");
-                    break;
+                if state.has_remotes() {
+                    info!(
+                        "No events sent within {:?}, voting to stop.",
+                        runtime_config.inactive_timeout
+                    );
+                } else {
+                    // The other tasks (particularly the HTTP task) could still be active so this task
+                    // cannot stop the agent on its own.
+                    info!(
+                        "No remotes attached within {:?}, voting to stop.",
+                        runtime_config.inactive_timeout
+                    );
                 }
                 voted = true;
                 streams.disable_timeout();
